@@ -438,6 +438,23 @@ def rule_bytes(ctx: Ctx) -> RuleReport:
                 rep.fail(Finding("C16-BYTES", EML, em.qual, f"{k.arg} from {keyc!r}", f"the attachment's {k.arg} is taken from mailparser's `{keyc}` instead of `{MP_KEYS[k.arg]}`" + (": safe_filename is a basename made safe for disk, 'Invoices 10/2024.csv' becomes '2024.csv' and the .eml and .mbox readers report different names for the same message" if k.arg == "filename" else ""), line=k.value.lineno))
     if n_ctor < 3:
         raise AnalysisError(f"C16-BYTES: only {n_ctor} functions build EmailAttachment (3 confirmed)")
+    # one result per message: a header that does not parse must not take the mailbox down. email.utils.parsedate_to_datetime raises
+    # TypeError for a missing and ValueError for a malformed Date; inside the per-message path of the mailbox reader it is guarded.
+    mb = ctx.p.module(MBOX)
+    for fi in mb.functions.values():
+        for c in calls_in(fi):
+            if (dotted(c.func) or "").split(".")[-1] != "parsedate_to_datetime":
+                continue
+            tries = [t for t in walk_own(fi.node) if isinstance(t, ast.Try) and any(x is c for st in t.body for x in ast.walk(st))]
+            caught = set()
+            for t in tries:
+                for h in t.handlers:
+                    els = h.type.elts if isinstance(h.type, ast.Tuple) else ([h.type] if h.type is not None else [])
+                    caught |= {(dotted(e) or "").split(".")[-1] for e in els} or {"BaseException"}
+            if {"TypeError", "ValueError"} <= caught or caught & {"Exception", "BaseException"}:
+                rep.ok({"fn": fi.qual, "parsedate_to_datetime": "guarded (TypeError, ValueError)"})
+            else:
+                rep.fail(Finding("C16-BYTES", MBOX, fi.qual, "parsedate_to_datetime unguarded", f"`{short(c, 60)}` raises TypeError for a missing and ValueError for a malformed Date header and is not enclosed by a handler for them: one draft or bounce without a Date makes the whole mailbox fail and no message is returned", line=c.lineno))
     return rep
 
 
